@@ -463,12 +463,19 @@ static const struct fault_menu fault_menus[C_NCALLS] = {
   [C_SIGSET] = { 1, { EINVAL } },
 };
 
+static int budget_left(int kind, int bound)
+{
+  if (S->used[kind] >= bound) return 0;
+  if (vk_cfg.total_bound > 0 && S->used[K_SCHED] + S->used[K_FAULT] + S->used[K_TIME] >= vk_cfg.total_bound) return 0;
+  return 1;
+}
+
 /* returns 0 = real answer, else the injected errno (or negative shape id) */
 static int fault(int call)
 {
   if (!vk_cfg.faults_on || !vk_faults_armed || vk_cfg.passthru) return 0;
   if (vk_side == 2) return 0;
-  if (S->used[K_FAULT] >= vk_cfg.fault_bound) return 0;
+  if (!budget_left(K_FAULT, vk_cfg.fault_bound)) return 0;
   if (vk_cfg.fault_calls && !(vk_cfg.fault_calls & (1ull << call))) return 0;
   const struct fault_menu *m = &fault_menus[call];
   if (m->n == 0) return 0;
@@ -783,7 +790,7 @@ int vk_sched_point(const char *label)
 {
   if (vk_side != 0 || !vk_cfg.sched_on || vk_cfg.passthru) return 0;
   int steps = 0;
-  while (S->used[K_SCHED] < vk_cfg.sched_bound) {
+  while (budget_left(K_SCHED, vk_cfg.sched_bound)) {
     struct vk_child *en[VK_MAX_CHILDREN];
     int n = enabled_children(en);
     if (!n) break;
@@ -812,6 +819,19 @@ static int blocked(struct vk_event *e, const char *where, int timeout_ms)
     menu[nm++] = 0;
     menu[nm++] = 1;
     menu[nm++] = timeout_ms - 1;
+  }
+  /* a signal handled by the caller may interrupt a blocked poll after any of the same elapsed times (a fault: costs 1) */
+  if (!strcmp(where, "poll") && vk_cfg.faults_on && vk_faults_armed && budget_left(K_FAULT, vk_cfg.fault_bound) &&
+      (!vk_cfg.fault_calls || (vk_cfg.fault_calls & (1ull << C_POLL)))) {
+    int c = vk_choose(K_FAULT, 1 + nm, 1, "poll-intr");
+    if (c) {
+      int el = menu[c - 1];
+      S->clock_ms += el;
+      e->blocked_ms += el;
+      e->injected = EINTR;
+      vk_log("    (%s interrupted by a signal after %d ms, t=%lld)", where, el, (long long) S->clock_ms);
+      return -2;
+    }
   }
   int nalt = n * nm + (timeout_ms >= 0 ? 1 : 0);
   if (nalt == 0) hang(where);
@@ -1258,6 +1278,11 @@ int vk_poll(struct pollfd *fds, nfds_t n, int timeout)
       return r;
     }
     int el = blocked(e, "poll", remaining < 0 ? -1 : remaining);
+    if (el == -2) {
+      ev_done(e, -1, EINTR);
+      errno = EINTR;
+      return -1;
+    }
     if (el < 0) {
       /* the OS timeout expired */
       for (nfds_t i = 0; i < n; i++) fds[i].revents = 0;
@@ -1669,7 +1694,7 @@ int vk_clock_gettime(clockid_t id, struct timespec *ts)
 {
   if (vk_cfg.passthru) return clock_gettime(id, ts);
   struct vk_event *e = ev_new(C_CLOCK, id, 0, 0);
-  if (vk_side == 0 && vk_cfg.time_on && S->used[K_TIME] < vk_cfg.time_bound) {
+  if (vk_side == 0 && vk_cfg.time_on && budget_left(K_TIME, vk_cfg.time_bound)) {
     int c = vk_choose(K_TIME, 3, 1, "clock");
     if (c == 1) S->clock_ms += 1;
     if (c == 2) S->clock_ms += vk_cfg.time_jump;
